@@ -201,7 +201,7 @@ def c04(run):
         "model: every reachable small-scope state x operation x k-th hasher invocation panics (scope guards as written in the code), for HashMap, "
         "HashTable (re-hash closure) and HashSet (incl. the assigning operators); "
         "code: random fault injection (Hash, Eq, Clone, Drop, BuildHasher::clone) at the k-th invocation and generated behaviours whose growing / "
-        "in-place-rehashing call panics at the k-th hasher invocation; post-unwind state validated", fault_corpus=True)
+        "in-place-rehashing call panics at the k-th hasher invocation; post-unwind state validated", fault_corpus=True, egoals=("map", "set", "table"))
 
 
 def c05(run):
